@@ -42,6 +42,7 @@ func runC03(c *Ctx) {
 	c03R4(c)
 	c01TagsGivenNode(c, "C03.R5.tags-given-node")
 	c03R6(c)
+	c03R7(c)
 }
 
 // ---------- R1: findRoots shape ----------
@@ -198,7 +199,7 @@ func c03ReachesMapUpdate(fn *ssa.Function, depth int, seen map[*ssa.Function]boo
 
 func c03R1(c *Ctx) {
 	const R = "C03.R1.find-roots-shape"
-	c.Expect(R, 11)
+	c.Expect(R, 12)
 	fs := c03RootFinders(c.P)
 	if len(fs) == 0 {
 		c.LostAnchor(R, "root finder (pops copyutil.Stack and calls ExtendedCopyGraphOptions.FindPredecessors) in package ~")
@@ -440,6 +441,22 @@ func c03R1(c *Ctx) {
 		okPush := len(pushesIn) > 0 && !reach(body.To, 0, pushLoop.Header.Instrs[0], newCut().Calls(pushesIn).Edges(visitedTrue...))
 		c.Check(R, fname+"|every-predecessor-pushed", blockPos(pushLoop.Header), okPush,
 			ifelse(okPush, "each predecessor is pushed unless already visited", "an iteration over the predecessors can finish without pushing the predecessor (other than for visited ones)"))
+		// the push loop is left only when the predecessors are exhausted (or by an error return): an early break /
+		// successful return abandons the remaining predecessors
+		{
+			_, _, _, exhausted, _ := c01ElemLoop(pushLoop)
+			early := ""
+			for _, e := range pushLoop.Exits {
+				if e == exhausted {
+					continue
+				}
+				if reach(e.To, 0, header, nil) || c01SuccessReturnFrom(F, e, nil, nil) != nil {
+					early = e.String()
+				}
+			}
+			c.Check(R, fname+"|push-loop-runs-to-the-end", blockPos(pushLoop.Header), early == "",
+				ifelse(early == "", "the loop over the predecessors ends only when they are exhausted (or with an error)", "the loop over the predecessors can be left early (break / return) without an error: the remaining predecessors are never pushed, their ancestors are lost"))
+		}
 		// (3) depths
 		_, idx, _, _, _ := c01ElemLoop(pushLoop)
 		isElem := func(v ssa.Value) bool {
@@ -1535,6 +1552,19 @@ func c03CheckFilterLoop(G *ssa.Function, l *Loop, descMT *types.Var) (res c03Fil
 		res.why = "several accumulators"
 		return
 	}
+	// the loop is left only when the list is exhausted, or by an error return
+	{
+		_, _, _, exhausted, _ := c01ElemLoop(l)
+		for _, e := range l.Exits {
+			if e == exhausted {
+				continue
+			}
+			if c01SuccessReturnFrom(G, e, nil, nil) != nil {
+				res.why = "the filtering loop can be left early (break / return) without an error: the remaining elements are never tested"
+				return
+			}
+		}
+	}
 	// (b1) every iteration reaches the keep test
 	if reach(body.To, 0, header, newCut().Instr(keepIfs...)) {
 		res.why = "an iteration can finish without the element reaching the keep test"
@@ -1818,6 +1848,94 @@ func c03R6(c *Ctx) {
 	}
 }
 
+// ---------- R7: the annotation filter keeps on presence ----------
+
+func c03R7(c *Ctx) {
+	const R = "C03.R7.annotation-presence-decides"
+	c.Expect(R, 3)
+	FA := c.P.Fn("", "ExtendedCopyGraphOptions.FilterAnnotation")
+	descAnn := c01FieldOf(c.P, c01OCISpec, "Descriptor", "Annotations")
+	if FA == nil || descAnn == nil || len(FA.Params) != 3 {
+		c.LostAnchor(R, "(*~.ExtendedCopyGraphOptions).FilterAnnotation(key, regex) / ocispec.Descriptor.Annotations")
+		return
+	}
+	keyParam, regexParam := FA.Params[1], FA.Params[2]
+	found := false
+	for _, K := range Anons(FA) {
+		sig := K.Signature
+		if sig.Params().Len() != 1 || !c01IsOCIDescriptor(sig.Params().At(0).Type()) || sig.Results().Len() != 1 {
+			continue
+		}
+		if b, ok := sig.Results().At(0).Type().Underlying().(*types.Basic); !ok || b.Kind() != types.Bool {
+			continue
+		}
+		var lookups []*ssa.Lookup
+		AllInstrs(K, func(in ssa.Instruction) {
+			if lk, ok := in.(*ssa.Lookup); ok {
+				if _, isMap := lk.X.Type().Underlying().(*types.Map); isMap && c01IsFieldValue(lk.X, descAnn) && c01CarriedFrom(c.P, lk.Index, keyParam) {
+					lookups = append(lookups, lk)
+				}
+			}
+		})
+		if len(lookups) == 0 {
+			continue
+		}
+		found = true
+		kn := c01OuterName(K) + "$keep"
+		var okVals = map[ssa.Value]bool{}
+		commaOk := true
+		for _, lk := range lookups {
+			if !lk.CommaOk {
+				commaOk = false
+				continue
+			}
+			for _, r := range *lk.Referrers() {
+				if ex, isEx := r.(*ssa.Extract); isEx && ex.Index == 1 {
+					for a := range Aliases(ex) {
+						okVals[a] = true
+					}
+				}
+			}
+		}
+		c.Check(R, kn+"|looks-up-presence", lookups[0].Pos(), commaOk && len(okVals) > 0,
+			ifelse(commaOk && len(okVals) > 0, "the annotation is looked up with the presence result (value, ok := annotations[key])", "the annotation is looked up without its presence result: a present annotation with an empty value cannot be told from an absent one, so FilterAnnotation(key, nil) drops manifests that have the key"))
+		if !commaOk || len(okVals) == 0 {
+			continue
+		}
+		okT, okF := BoolTests(K, okVals)
+		regexVals := map[ssa.Value]bool{}
+		AllInstrs(K, func(in ssa.Instruction) {
+			if v, isV := in.(ssa.Value); isV && v.Type() == regexParam.Type() && c01CarriedFrom(c.P, v, regexParam) {
+				regexVals[v] = true
+			}
+		})
+		reNil, reNonNil, _ := NilTests(K, regexVals)
+		absentFalse, presentNilTrue := true, len(reNil) > 0
+		for _, a := range RetAtoms(K, 0) {
+			k, isK := a.Val.(*ssa.Const)
+			switch {
+			case isK && k.Value != nil && !boolConst(k):
+				// a `false` answer needs the key absent, or a regex to have been consulted
+				if !AtomMustPass(a, newCut().Edges(okF...).Edges(reNonNil...)) {
+					presentNilTrue = false
+				}
+			default:
+				// any other answer needs the key present
+				if len(okT) == 0 || !AtomMustPass(a, newCut().Edges(okT...)) {
+					absentFalse = false
+				}
+			}
+		}
+		c.Check(R, kn+"|absent-key-is-dropped", K.Pos(), absentFalse,
+			ifelse(absentFalse, "every answer other than false follows the ok==true edge of the lookup", "a descriptor without the annotation key can be kept"))
+		c.Check(R, kn+"|present-key-kept-without-regex", K.Pos(), presentNilTrue,
+			ifelse(presentNilTrue, "with the key present and regex == nil the answer cannot be false: presence alone decides", "with regex == nil a descriptor that has the key can still be dropped (something other than presence decides, e.g. the value's emptiness)"))
+	}
+	if !found {
+		c.LostAnchor(R, "keep predicate of FilterAnnotation (closure looking up Descriptor.Annotations[key])")
+	}
+}
+
 var c03Mutants = []Mutant{
 	// --- the repository's own test suite stays green under these (verified in a scratch copy) ---
 	{Name: "only-manifest-predecessors-followed", File: "extendedcopy.go",
@@ -1837,6 +1955,15 @@ var c03Mutants = []Mutant{
 		Old:    "\t\t\t\treturn predecessors, nil\n\t\t\t}\n\t\t\tpredecessors, err = src.Predecessors(ctx, desc)\n\t\t} else {\n\t\t\tpredecessors, err = fp(ctx, src, desc)\n\t\t}\n\t\tif err != nil {\n\t\t\treturn nil, err\n\t\t}\n\n\t\t// Predecessor descriptors",
 		New:    "\t\t\t\tvar found []ocispec.Descriptor\n\t\t\t\tfound = append(found, predecessors[:len(predecessors):len(predecessors)]...)\n\t\t\t\treturn found[:0], nil\n\t\t\t}\n\t\t\tpredecessors, err = src.Predecessors(ctx, desc)\n\t\t} else {\n\t\t\tpredecessors, err = fp(ctx, src, desc)\n\t\t}\n\t\tif err != nil {\n\t\t\treturn nil, err\n\t\t}\n\n\t\t// Predecessor descriptors",
 		Expect: "C03.R6.filter-keeps-every-match|(*~.ExtendedCopyGraphOptions).FilterAnnotation$wrapper|returns-page-accumulator"},
+	{Name: "push-loop-breaks-at-visited", File: "extendedcopy.go",
+		Old: "\t\t\tif !visited.Contains(predecessorKey) {\n\t\t\t\t// push the predecessor node with increased depth\n\t\t\t\tstack.Push(copyutil.NodeInfo{Node: predecessor, Depth: current.Depth + 1})\n\t\t\t}",
+		New: "\t\t\tif visited.Contains(predecessorKey) {\n\t\t\t\tbreak\n\t\t\t}\n\t\t\tstack.Push(copyutil.NodeInfo{Node: predecessor, Depth: current.Depth + 1})", Expect: "C03.R1.find-roots-shape|~.findRoots|push-loop-runs-to-the-end"},
+	{Name: "annotation-empty-value-is-absent", File: "extendedcopy.go",
+		Old: "\t\tvalue, ok := desc.Annotations[key]\n\t\treturn ok && (regex == nil || regex.MatchString(value))", New: "\t\tvalue := desc.Annotations[key]\n\t\treturn value != \"\" && (regex == nil || regex.MatchString(value))", Expect: "C03.R7.annotation-presence-decides"},
+	{Name: "annotation-needs-non-empty-value", File: "extendedcopy.go",
+		Old: "\t\treturn ok && (regex == nil || regex.MatchString(value))", New: "\t\treturn ok && value != \"\" && (regex == nil || regex.MatchString(value))", Expect: "C03.R7.annotation-presence-decides|(*~.ExtendedCopyGraphOptions).FilterAnnotation$keep|present-key-kept-without-regex"},
+	{Name: "kept-loop-stops-at-first-mismatch", File: "extendedcopy.go",
+		Old: "\t\t\tif keep(p) {\n\t\t\t\tkept = append(kept, p)\n\t\t\t}\n\t\t}\n\t\treturn kept, nil\n\t}\n}\n\n// fetchAnnotations", New: "\t\t\tif !keep(p) {\n\t\t\t\tbreak\n\t\t\t}\n\t\t\tkept = append(kept, p)\n\t\t}\n\t\treturn kept, nil\n\t}\n}\n\n// fetchAnnotations", Expect: "C03.R6.filter-keeps-every-match|(*~.ExtendedCopyGraphOptions).FilterAnnotation$wrapper|every-predecessor-tested-and-kept"},
 	// --- below: see the report for which of these the repository's tests also catch ---
 	{Name: "referrers-ignores-artifact-type", File: "registry/repository.go",
 		Old: "\t\t\tnode.ArtifactType = manifest.ArtifactType\n\t\t\tif node.ArtifactType == \"\" {\n\t\t\t\tnode.ArtifactType = manifest.Config.MediaType\n\t\t\t}",
